@@ -47,7 +47,7 @@ def discharge_factory(F, helpers):
             src = norm(e["args"][1])
             # source = okval(take_n(rest, K)).0 with K == destination length
             if cp and sym.is_c(cp["dst_len"]) and src[0] == "getf" and src[2] == "0" and src[1][0] == "okval" and src[1][1][0] == "call" \
-                    and src[1][1][2] == "postcard_dyn::de::TakeExt::take_n" and norm(src[1][1][3][1]) == cp["dst_len"]:
+                    and re.search(r"(^|::)take_n$", src[1][1][2] or "") and norm(src[1][1][3][1]) == cp["dst_len"]:
                 return "length fact: take_n(%d) returns exactly %d bytes (split_at), destination is a %d-byte array" % ((cp["dst_len"][1],) * 3)
             return None
         if s.kind == "call" and "split_at" in s.text and "take_n" in fk:
